@@ -103,6 +103,36 @@ def _has_call(fn: ast.AST, callee: str) -> bool:
     return any(isinstance(n, ast.Call) and _callee(n) == callee for n in ast.walk(fn))
 
 
+def _only_error_batch(with_node: ast.With) -> bool:
+    """The `with new_ipc_stream(...) as w:` block writes the error batch and nothing else."""
+    calls = [n for st in with_node.body for n in ast.walk(st) if isinstance(n, ast.Call)]
+    names = [_callee(c) for c in calls]
+    return len(with_node.body) == 1 and names.count("_write_error_batch") == 1 and not any(
+        n in ("_flush_collector_logs", "_flush_collector", "write_batch", "flush_contents", "_write_message_batch") for n in names)
+
+
+def _replacement_shapes(un: ast.FunctionDef, st: ast.Module) -> tuple[bool, bool]:
+    """Is the response that replaces an oversize body a fresh stream with only the error batch (unary, exchange)?"""
+    unary = False
+    for t in [t for t in ast.walk(un) if isinstance(t, ast.Try)]:
+        for h in t.handlers:
+            if h.type is not None and ast.unparse(h.type) == "RuntimeError" and any(
+                    isinstance(c, ast.Call) and _callee(c) == "_enforce_response_budgets" for b in t.body for c in ast.walk(b)):
+                fresh = any(isinstance(n, ast.Assign) and ast.unparse(n.targets[0]) == "resp_buf" and ast.unparse(n.value) == "BytesIO()" for n in h.body)
+                withs = [n for n in h.body if isinstance(n, ast.With)]
+                unary = fresh and len(withs) == 1 and _only_error_batch(withs[0]) and "resp_buf" in ast.unparse(withs[0].items[0])
+    er = _func(st, "_exchange_error_response")
+    withs = [n for n in er.body if isinstance(n, ast.With)]
+    fresh = any(isinstance(n, ast.Assign) and ast.unparse(n.targets[0]) == "resp_buf" and ast.unparse(n.value) == "BytesIO()" for n in er.body)
+    exchange = fresh and len(withs) == 1 and _only_error_batch(withs[0])
+    # every cap-overshoot site of the exchange turn answers through that helper
+    ex = _func(st, "_run_http_exchange_turn")
+    sites = [n for n in ast.walk(ex) if isinstance(n, ast.Return) and isinstance(n.value, ast.Call) and _callee(n.value) == "_exchange_error_response"]
+    if len(sites) != 2:
+        raise Shape(f"exchange turn: expected two overshoot sites returning _exchange_error_response, found {len(sites)}")
+    return unary, exchange
+
+
 def emit() -> dict[str, str]:
     ext = _tree("vgi_rpc/external.py")
     pb, pc = _func(ext, "predict_externalize_bytes_for_batch"), _func(ext, "predict_externalize_bytes_for_collector")
@@ -137,6 +167,8 @@ def emit() -> dict[str, str]:
     enf_w = _cmp(enf, lambda s: s == "wire_bytes", lambda s: s == "wire_cap", "enforce wire")
     enf_e = _cmp(enf, lambda s: s == "external_bytes", lambda s: s == "external_cap", "enforce external")
 
+    repl_unary, repl_exchange = _replacement_shapes(un, st)
+
     def b(x: bool) -> str:
         return "true" if x else "false"
 
@@ -170,6 +202,8 @@ def shape : Shape where
   exchangeEnforces := {b(_has_call(ex, "_enforce_response_budgets"))}
   producerEnforces := {b(_has_call(pr, "_enforce_response_budgets"))}
   producerContinue := .{prod_cont}
+  unaryReplacementOnlyError := {b(repl_unary)}
+  exchangeReplacementOnlyError := {b(repl_exchange)}
 
 end VgiVerif.Gen.RespCaps
 """
